@@ -1190,6 +1190,62 @@ def _minmax(eng, st, args, kw, is_min):
     raise Unsupported("min/max form")
 
 
+def any_all_genexp(eng, node, st, fi):
+    """any(E for x in S if C) / all(..) in executable code.  The generator is evaluated as the LIST of its element values (the supported
+    list comprehension); any() is true iff some position holds a truthy value.  CPython stops at the FIRST such position w: positions
+    before w hold falsy values.  A walrus element `(name := e)` leaves in `name` the value at w (any true) resp. the value at the last
+    position (exhausted: any false, all true) - with no element at all `name` stays as it was."""
+    is_any = node.func.id == "any"
+    gen = node.args[0]
+    elt = gen.elt
+    target = None
+    if isinstance(elt, ast.NamedExpr):
+        target, elt = elt.target.id, elt.value
+    lc = ast.ListComp(elt=elt, generators=gen.generators)
+    ast.copy_location(lc, gen)
+    ast.fix_missing_locations(lc)
+    out = []
+    for s, lst in eng.ev(lc, st, fi):
+        if s.exc is not None:
+            out.append((s, None))
+            continue
+        if isinstance(lst, SGen):
+            lst = lst.lst
+        if not (isinstance(lst, SRef) and lst.ty.kind == "list"):
+            raise Unsupported("any()/all() over a generator that is not list-like")
+        n = s.clen(lst.t)
+        s.assume(n >= 0)
+        seq = s.cseq(lst.t)
+        ety = lst.ty.v
+
+        def truthy(state, idx):
+            return eng.truth(state, wrap_elem(eng, state, z3.Select(seq, idx), ety))
+        w = sym.fresh_int("anyw")
+        j = sym.fresh_int("j")
+        hit_t = truthy(s, w) if is_any else z3.Not(truthy(s, w))      # the position that stops the scan
+        before = truthy(s, j) if is_any else z3.Not(truthy(s, j))
+        stop = z3.And(w >= 0, w < n, hit_t, z3.ForAll([j], z3.Implies(z3.And(j >= 0, j < w), z3.Not(before))))
+        none = z3.ForAll([j], z3.Implies(z3.And(j >= 0, j < n), z3.Not(before)))
+        # fork: the scan stops at some position w / runs to the end
+        s_stop, s_end = s, s.copy()
+        s_stop.assume(stop)
+        s_end.assume(none)
+        if s_stop.feasible():
+            if target is not None:
+                eng.assign_name(s_stop, fi, target, wrap_elem(eng, s_stop, z3.Select(seq, w), ety))
+            out.append((s_stop, SBool(z3.BoolVal(is_any))))
+        if s_end.feasible():
+            if target is not None:
+                # exhausted: the name holds the last element if there was one (else it keeps its previous binding / stays unbound)
+                for s2, nonempty in eng.branch(s_end, n > 0):
+                    if nonempty:
+                        eng.assign_name(s2, fi, target, wrap_elem(eng, s2, z3.Select(seq, n - 1), ety))
+                    out.append((s2, SBool(z3.BoolVal(not is_any))))
+            else:
+                out.append((s_end, SBool(z3.BoolVal(not is_any))))
+    return out
+
+
 @_b("any")
 def b_any(eng, st, args, kw):
     raise Unsupported("any() over symbolic iterable")
@@ -2149,6 +2205,13 @@ def spec_ev(eng, node, st, fi):
     return [(s, SAny(Val.tup(sym.vl_of([Val.str(z3.StringVal(name))] + vals)), ANY))]
 
 
+def spec_logged(eng, node, st, fi):
+    """logged(e): the entry e (built with ev(..)) was put on the external-call log since the verified function was entered.
+    A set-valued ghost kept next to the log: 'every X was told Y' is stated without an existential over log positions."""
+    (s, e), = eng.ev(node.args[0], st, fi)
+    return [(s, SBool(z3.Select(s.ev_set, e.val())))]
+
+
 def spec_locked(eng, node, st, fi):
     (s, l), = eng.ev(node.args[0], st, fi)
     return [(s, SBool(Val.bval(s.read_field(l.t, "locked"))))]
@@ -2257,6 +2320,7 @@ def spec_sk(eng, node, st, fi):
 
 
 SPEC_FUNCS = {
+    "logged": spec_logged,
     "sk": spec_sk,
     "agg": spec_agg,
     "contrib": spec_agg_contrib,
